@@ -16,6 +16,11 @@ use serde_json::{json, Value};
 use std::collections::BTreeMap;
 use std::fs;
 
+struct RemoveOnDrop(Option<std::path::PathBuf>);
+impl Drop for RemoveOnDrop {
+    fn drop(&mut self) { if let Some(p) = &self.0 { let _ = fs::remove_file(p); } }
+}
+
 pub struct Summary {
     pub viol: Vec<Value>,
     pub evaluations: u64,
@@ -25,8 +30,27 @@ pub struct Summary {
     pub rule: &'static str,
 }
 
+/// The executable child processes are spawned from: a private copy taken when the run starts, so that
+/// a rebuild of the harness during a long run does not pull the binary from under it.
+pub fn self_exe() -> std::path::PathBuf {
+    match std::env::var("HX_SELF_EXE") { Ok(p) => std::path::PathBuf::from(p), Err(_) => std::env::current_exe().expect("current exe") }
+}
+
 fn main() {
     let prop = std::env::args().nth(1).expect("usage: hx-chain <Cxx>");
+    let mut private_copy: Option<std::path::PathBuf> = None;
+    if std::env::var("HX_SELF_EXE").is_err() && !prop.ends_with("-child") {
+        let dir = out_dir(&prop);
+        for e in fs::read_dir(&dir).unwrap().flatten() {
+            if e.file_name().to_string_lossy().starts_with("hx-self-") { let _ = fs::remove_file(e.path()); }
+        }
+        let copy = dir.join(format!("hx-self-{}", std::process::id()));
+        if fs::copy(std::env::current_exe().expect("current exe"), &copy).is_ok() {
+            std::env::set_var("HX_SELF_EXE", &copy);
+            private_copy = Some(copy);
+        }
+    }
+    let _cleanup = RemoveOnDrop(private_copy);
     if prop == "C10-child" {
         c10::child(std::path::Path::new(&std::env::args().nth(2).expect("dir")));
     }
@@ -113,7 +137,7 @@ fn run_sharded(prop: &str, out: &std::path::Path) {
     }
     let shards_dir = out.join("shards");
     let _ = fs::remove_dir_all(&shards_dir);
-    let exe = std::env::current_exe().expect("current exe");
+    let exe = self_exe();
     let mut pending: Vec<u64> = (0..n).rev().collect();
     let mut running: Vec<(u64, std::process::Child)> = vec![];
     let mut failed: Vec<String> = vec![];
@@ -201,6 +225,7 @@ fn run_sharded(prop: &str, out: &std::path::Path) {
     println!("hx-chain {prop}: {evaluations} evaluations in {n} shards, {} implementation-side violations", viol.len());
     if !failed.is_empty() {
         eprintln!("hx-chain {prop}: {}", failed.join("; "));
+        if let Ok(p) = std::env::var("HX_SELF_EXE") { let _ = fs::remove_file(p); }
         std::process::exit(3);
     }
 }
